@@ -313,20 +313,27 @@ pub fn kernel_openat2(root: BorrowedFd<'_>, path: &[u8], flags: u64, resolve_ext
         Ok(c) => c,
         Err(_) => return Err(libc::EINVAL),
     };
-    let r = unsafe {
-        libc::syscall(
-            libc::SYS_openat2,
-            root.as_raw_fd(),
-            c.as_ptr(),
-            &how as *const How,
-            std::mem::size_of::<How>(),
-        )
-    };
-    if r >= 0 {
-        Ok(unsafe { OwnedFd::from_raw_fd(r as i32) })
-    } else {
-        Err(std::io::Error::last_os_error().raw_os_error().unwrap_or(0))
+    // RESOLVE_IN_ROOT answers EAGAIN when any rename or mount happened on the machine during the
+    // walk (a global sequence count): that is not an answer about this tree, ask again
+    for _ in 0..10000 {
+        let r = unsafe {
+            libc::syscall(
+                libc::SYS_openat2,
+                root.as_raw_fd(),
+                c.as_ptr(),
+                &how as *const How,
+                std::mem::size_of::<How>(),
+            )
+        };
+        if r >= 0 {
+            return Ok(unsafe { OwnedFd::from_raw_fd(r as i32) });
+        }
+        let e = std::io::Error::last_os_error().raw_os_error().unwrap_or(0);
+        if e != libc::EAGAIN {
+            return Err(e);
+        }
     }
+    Err(libc::EAGAIN)
 }
 
 pub fn kernel_line(root: &Root, op: &Op, rflags: ResolverFlags, labels: &Labels) -> Option<String> {
@@ -336,6 +343,15 @@ pub fn kernel_line(root: &Root, op: &Op, rflags: ResolverFlags, labels: &Labels)
         Op::Resolve { path, nofollow } => {
             let fl = libc::O_PATH as u64 | if *nofollow { libc::O_NOFOLLOW as u64 } else { 0 };
             Some(match kernel_openat2(rootfd, path, fl, rf) {
+                Ok(fd) => format!("kern ok fd {}", describe_fd(fd.as_raw_fd(), labels)),
+                Err(e) => format!("kern err {e}"),
+            })
+        }
+        Op::OpenSubpath { path, flags }
+            if flags & (libc::O_TRUNC | libc::O_CREAT) == 0 && flags & libc::O_TMPFILE != libc::O_TMPFILE =>
+        {
+            // the one-shot open is openat2 with the same flags (no side effect without O_TRUNC/O_CREAT)
+            Some(match kernel_openat2(rootfd, path, *flags as u32 as u64, rf) {
                 Ok(fd) => format!("kern ok fd {}", describe_fd(fd.as_raw_fd(), labels)),
                 Err(e) => format!("kern err {e}"),
             })
